@@ -220,7 +220,7 @@ func execC12(spec *RunSpec) *Result {
 			offsets = append(keep, offsets[len(offsets)-8:]...)
 		}
 	}
-	forms := []int{0, 1, 2, 3}
+	forms := []int{0, 1, 2, 3, 4}
 	if spec.Grid != nil && len(spec.Grid.Forms) > 0 {
 		forms = spec.Grid.Forms
 	}
